@@ -433,6 +433,8 @@ struct SctpInner {
 
     // Inbound stream state for ordered delivery
     inbound_streams: Mutex<HashMap<u16, InboundStream>>,
+    // Fragments of the DCEP message being reassembled, per stream id
+    dcep_reassembly: Mutex<HashMap<u16, BytesMut>>,
 
     // PR-SCTP: Advanced Peer Ack Point (RFC 3758)
     advanced_peer_ack_tsn: AtomicU32,
@@ -890,6 +892,7 @@ impl SctpTransport {
                 key
             },
             inbound_streams: Mutex::new(HashMap::new()),
+            dcep_reassembly: Mutex::new(HashMap::new()),
             advanced_peer_ack_tsn: AtomicU32::new(0),
             forward_tsn_pending: AtomicBool::new(false),
             forward_tsn_streams: Mutex::new(Vec::new()),
@@ -2810,6 +2813,22 @@ impl SctpInner {
         let user_data = buf;
 
         if payload_proto == DATA_CHANNEL_PPID_DCEP {
+            // A DCEP message is a user message like any other: reassemble it on
+            // the B / E bits first (an OPEN whose label + protocol exceed one DATA
+            // chunk is fragmented by send_dcep_open itself). The channel may not
+            // exist yet, so the fragments are kept per stream id.
+            let user_data = {
+                let mut pending = self.dcep_reassembly.lock();
+                let buffer = pending.entry(stream_id).or_default();
+                if (flags & 0x02) != 0 {
+                    buffer.clear();
+                }
+                buffer.extend_from_slice(&user_data);
+                if (flags & 0x01) == 0 {
+                    return Ok(());
+                }
+                pending.remove(&stream_id).unwrap_or_default().freeze()
+            };
             // If this DCEP message was sent ordered (U-bit not set), we must
             // still advance the InboundStream SSN so subsequent data messages
             // on this stream are delivered correctly.  DCEP messages are not
@@ -2827,7 +2846,12 @@ impl SctpInner {
                 // deliverable, but DCEP messages arrive before any data
                 // channel exists, so there shouldn't be anything to deliver.
             }
-            self.handle_dcep(stream_id, user_data).await?;
+            // A DCEP message that does not parse is dropped; it must not abort
+            // handle_data before cumulative_tsn_ack advances (the chunk would never
+            // be acknowledged and the whole association would stall behind it).
+            if let Err(e) = self.handle_dcep(stream_id, user_data).await {
+                debug!("SCTP: ignoring DCEP message on stream {}: {}", stream_id, e);
+            }
             return Ok(());
         }
 
